@@ -93,7 +93,7 @@ def _eval_sym(expr, axes, args):
         return ("exc", None)
 
 
-def match_shape(toks, shape, ctx, label=None):
+def match_shape(toks, shape, ctx, label=None, retry=True):
     """Returns (outcomes:set, post:Ctx|None).  label: '?'-leaf label (str) or None or 'ERR'."""
     shape = tuple(shape)
     nvar = [i for i, t in enumerate(toks) if t["kind"] in ("var", "anonvar")]
@@ -182,7 +182,7 @@ def match_shape(toks, shape, ctx, label=None):
     if not problems:
         return {ACCEPT}, post
     out = set(problems)
-    if ANNERR in problems and problems == {ANNERR} and has_sym:
+    if retry and ANNERR in problems and problems == {ANNERR} and has_sym:
         # a symbolic axis that mentions a name bound LATER in the same array: order of evaluation is
         # not specified by the texts -> also allow the verdict of a full evaluation
         o2, p2 = _retry_with_bound(toks, shape, ctx, label)
@@ -206,10 +206,10 @@ def _retry_with_bound(toks, shape, ctx, label):
     c2 = ctx.copy()
     # first pass: bind names, ignoring symbolic axes
     t2 = [dict(t, kind="anon") if t["kind"] == "sym" else t for t in toks]
-    o, p = match_shape(t2, shape, c2, label)
+    o, p = match_shape(t2, shape, c2, label, retry=False)
     if p is None:
         return o, None
-    o3, p3 = match_shape(toks, shape, p, label)
+    o3, p3 = match_shape(toks, shape, p, label, retry=False)
     if ANNERR in o3:
         return None, None
     return o3, (p3 if ACCEPT in o3 else None)
@@ -239,3 +239,104 @@ def match_array(spec, val, ctx, label=None, flatten_mode=False):
         out = {REJECT}
         return out, None
     return match_shape(toks, val["s"], ctx, label)
+
+
+# ------------------------------------------------------------------------------------------
+# decorated call: DECLARATIVE satisfiability (does not walk the parameters in order)
+
+def _collect(items):
+    """-> (type_bad, singles[(tok,size)], variadic_uses{name:[(b,seg)]})"""
+    type_bad = False
+    singles, variadic_uses = [], {}
+    for spec, val in items:
+        at, vt = spec["atype"], val["t"]
+        if vt not in ("np", "duck", "mduck") or (at == "np" and vt != "np") or (at in ("duck", "mduck") and vt == "np") \
+                or (at == "mduck" and vt != "mduck"):
+            type_bad = True
+            continue
+        if val.get("d", "float32") not in CATEGORIES[spec["dtype"]]:
+            type_bad = True
+            continue
+        toks = parse_dims(spec["dims"])
+        shape = tuple(val["s"])
+        nvar = [i for i, t in enumerate(toks) if t["kind"] in ("var", "anonvar")]
+        if nvar:
+            i = nvar[0]
+            nsuf = len(toks) - i - 1
+            if len(shape) < len(toks) - 1:
+                type_bad = True
+                continue
+            pairs = list(zip(toks[:i], shape[:i])) + (list(zip(toks[i + 1:], shape[len(shape) - nsuf:])) if nsuf else [])
+            if toks[i]["kind"] == "var":
+                variadic_uses.setdefault(toks[i]["name"], []).append((bool(toks[i].get("b")), shape[i:len(shape) - nsuf]))
+        else:
+            if len(shape) != len(toks):
+                type_bad = True
+                continue
+            pairs = list(zip(toks, shape))
+        singles.extend(pairs)
+    return type_bad, singles, variadic_uses
+
+
+def _solve(singles, variadic_uses):
+    """-> (unsat, axes) : one consistent assignment of sizes to names / shapes to *names?"""
+    unsat = False
+    axes = {}
+    for t, s in singles:
+        if t["kind"] == "named":
+            if t.get("b") and s == 1:
+                continue
+            if t["name"] in axes and axes[t["name"]] != s:
+                unsat = True
+            axes.setdefault(t["name"], s)
+        elif t["kind"] == "fixed":
+            if not (t["size"] == s or (t.get("b") and s == 1)):
+                unsat = True
+    for name, uses in variadic_uses.items():
+        plain = [tuple(seg) for b, seg in uses if not b]
+        bro = [tuple(seg) for b, seg in uses if b]
+        if plain:
+            v = plain[0]
+            if any(p != v for p in plain):
+                unsat = True
+            for seg in bro:
+                if _bshape(seg, v) != v:
+                    unsat = True
+        else:
+            acc = ()
+            for seg in bro:
+                acc = _bshape(seg, acc) if acc is not None else None
+            if acc is None:
+                unsat = True
+    return unsat, axes
+
+
+def call_model(param_items, ret_item=None, args=None):
+    """param_items: [(annotation spec, value spec)] for every array-annotated argument; ret_item: the same
+    for the returned value or None.  Returns the outcome set of the whole call.  Symbolic axes of parameters
+    are evaluated over the sizes fixed by the PARAMETERS, those of the return value over all sizes."""
+    args = args or {}
+    tb_p, sg_p, vu_p = _collect(param_items)
+    unsat_p, axes_p = _solve(sg_p, vu_p)
+    all_items = list(param_items) + ([ret_item] if ret_item is not None else [])
+    tb_a, sg_a, vu_a = _collect(all_items)
+    unsat_a, axes_a = _solve(sg_a, vu_a)
+    unsat = tb_a or unsat_a
+    annerr = False
+    n_p = len(sg_p)
+    for idx, (t, s) in enumerate(sg_a):
+        if t["kind"] != "sym" or (t.get("b") and s == 1):
+            continue
+        st, val = _eval_sym(t["expr"], axes_p if idx < n_p else axes_a, args)
+        if st == "unbound":
+            annerr = True
+        elif st == "exc":
+            return {EXC, REJECT, ANNERR}
+        elif val != s:
+            unsat = True
+    out = set()
+    if unsat:
+        out.add(REJECT)
+    if annerr:
+        out.add(ANNERR)
+    return out or {ACCEPT}
